@@ -7,7 +7,7 @@ export GOFLAGS=-mod=mod GOPROXY=off; unset GOWORK
 K=${1:-/verif/bin/ketosa}
 T=$(mktemp -d /tmp/selftest-XXXXXX)
 for p in $($K -list); do $K -property $p -control list; done > $T/list.txt 2>/dev/null
-for p in $($K -list); do for k in commute ifelse rename parens swtoif derange elseafter renamefn renamety renamefld renamevar renameexp; do echo "$p metamorph-$k negative -"; done; done >> $T/list.txt
+for p in $($K -list); do for k in commute ifelse rename parens swtoif derange elseafter renamefn renamety renamefld renamevar renameexp adddefer addcall revdecl revcases tmpreturn; do echo "$p metamorph-$k negative -"; done; done >> $T/list.txt
 cat $T/list.txt | xargs -P ${JOBS:-5} -L 1 sh -c '
   case "$1" in metamorph-*) out=$('$K' -property $0 -metamorph ${1#metamorph-} 2>&1 | tail -1);; *) out=$('$K' -property $0 -control $1 2>&1 | tail -1);; esac
   echo "$0 $1 $2 ${3:--} :: $out"' > $T/out.txt 2>&1
